@@ -279,3 +279,33 @@ func Harness_C01_RecoverQuorumPrefixKeepsAcked() {
 	zzsym.Assert(sel.Index == 0 || len(sel.Supporters) >= 2, "recovered prefix without a quorum of supporters")
 	zzsym.Observe("recovered", sel.Index, sel.CertifiedCommitted, uint64(len(sel.Supporters)), uint64(d.calls))
 }
+
+// Harness_C01_QuorumIsMajority: the quorum-intersection argument behind C01 needs 2Q > N. Every
+// gate that admits a (voters, quorum) pair into recovery or installation must refuse anything else.
+func Harness_C01_QuorumIsMajority() {
+	n := 1 + zzsym.Choice("voters", 5)
+	voters := make([]ch.NodeID, n)
+	for i := range voters {
+		voters[i] = ch.NodeID(i + 1)
+	}
+	q := zzsym.Int("quorum")
+	_, err := validateRecoveryTopology(voters, q)
+	zzsym.Reach("topology-checked")
+	if err == nil {
+		zzsym.Reach("topology-accepted")
+		zzsym.Assert(q > 0 && q <= n && 2*q > n, "recovery topology accepted a write quorum that is not a majority of the voters")
+	}
+	authority := Authority{Key: "k", ChannelID: ch.ChannelID{ID: "g1", Type: 2}, ID: AuthorityID{ChannelEpoch: 1, LeaderTerm: 1, FenceVersion: 1},
+		Leader: 1, Voters: voters, WriteQuorum: q}
+	if validAuthority(authority) {
+		zzsym.Reach("authority-accepted")
+		zzsym.Assert(q > 0 && q <= n && 2*q > n, "an installable authority carries a write quorum that is not a majority of its voters")
+	}
+	// the recovery entry point refuses it as well (before any probe is sent)
+	d := &c01Dispatcher{up: 0b111}
+	_, rerr := recoverQuorumPrefix(context.Background(), recoveryProbeRequest{ChannelKey: "k", ChannelID: ch.ChannelID{ID: "g1", Type: 2},
+		Leader: 1, Voters: voters, Quorum: q, Timeout: time.Second}, d)
+	if !(q > 0 && q <= n && 2*q > n) {
+		zzsym.Assert(rerr != nil && d.calls == 0, "recovery ran with a write quorum that is not a majority")
+	}
+}
